@@ -85,8 +85,8 @@ def contracts_for_use():
 INLINED = ['Region.pmin/pmax/ndim/edges/center/centre/dims/units/tolerance_factor', 'Region._dim2index']
 TRUSTED = ['contract of Region.__init__ (discharged under C01)',
            '[A] numpy element-wise arithmetic/minimum/maximum/dot on 1-d arrays, ndarray.copy/astype',
-           '[A-trig] cos/sin of k*pi/2 are the exact quarter-turn table on k mod 4']
-ASSUMPTIONS = ['A-trig: the 6e-17 residue of cos(pi/2) in doubles is ignored (covered by the bounded tier)']
+           '[A-trig] np.round(np.cos / np.sin(k*pi/2)) is the exact quarter-turn table on k mod 4 (the library rounds the 6e-17 residue away since fix 352db988)']
+ASSUMPTIONS = ['A-trig: cos/sin of k*pi/2 in doubles are within 0.5 of the exact table, so that the rounded values the library uses are exact (checked by the bounded tier bit for bit)']
 MUTANTS = {
     'setter_keeps_object': {'module': 'mesh', 'contract': 'Mesh.subregions.setter [ownership]', 'config': {'ndim': 1, 'scen': 'same_meta', 'old': 1},
                             'old': '            name: df.Region(\n                p1=sr.pmin,\n                p2=sr.pmax,\n                dims=self.region.dims,\n                units=self.region.units,\n                tolerance_factor=self.region.tolerance_factor,\n            )\n',
